@@ -517,7 +517,7 @@ class Bf3File:
                 params = dict(p.strip().split("=") for p in params_str.split(",") if p)
                 yield cmd, params
             elif line.startswith("##"):
-                name, value = line[2:].split(":")
+                name, value = line[2:].split(":", 1)
                 yield name, value.strip()
 
     @classmethod
